@@ -225,3 +225,53 @@ func H_C16_shared_child() {
 	hCheckLayout(hDiamond(), n)
 	verifReach("end")
 }
+
+// Derived containers that override Count (a table that counts its header line, a record that counts its
+// name): the text is laid out from what the container holds, whatever the override reports.
+type hCountingList struct {
+	List
+}
+
+func (ego *hCountingList) Count() int { return ego.List.Count() + 1 }
+
+type hCountingObject struct {
+	Object
+}
+
+func (ego *hCountingObject) Count() int { return ego.Object.Count() + 1 }
+
+func H_C16_derived_overriding_count() {
+	n := []int{0, 2, 10}[nondetIntRange(0, 2)]
+	x := nondetInt()
+	verifAssume(verifAnd(x >= 0, x < 10))
+	var d, twin any
+	switch nondetIntRange(0, 3) {
+	case 0:
+		dl := &hCountingList{List: NewList(x, "s")}
+		dl.Init(dl)
+		d, twin = dl, NewList(x, "s")
+	case 1:
+		dl := &hCountingList{List: NewList()}
+		dl.Init(dl)
+		d, twin = dl, NewList()
+	case 2:
+		do := &hCountingObject{Object: NewObject("a", x)}
+		do.Init(do)
+		d, twin = do, NewObject("a", x)
+	default:
+		dl := &hCountingList{List: NewList(x)}
+		dl.Init(dl)
+		d, twin = NewList(dl, 1), NewList(NewList(x), 1)
+	}
+	out, p := hFormatAny(d, n)
+	verifAssert(!p, "FormatString with an indent in 0..10 does not panic")
+	verifAssert(len(out) > 0, "FormatString is non-empty")
+	got, ok := refParse(out)
+	verifAssert(ok, "FormatString is a valid JSON text")
+	want, wok := refParse(hStringAny(twin))
+	if ok && wok {
+		verifAssert(hExact(want, got), "FormatString denotes exactly the same data as String")
+	}
+	verifAssert(hCanonical(out, n), "FormatString is the canonical layout: one element per line, n spaces per level, empty containers on one line")
+	verifReach("end")
+}
